@@ -372,7 +372,7 @@ pub struct Device {
     pub name: String,
     pub dir: PathBuf,
     pub kind: BackendKind,
-    pub account: Option<LocalAccount>,
+    pub account: Option<std::sync::Arc<tokio::sync::Mutex<LocalAccount>>>,
     pub account_id: AccountId,
     pub password: SecretString,
     pub model: Model,
@@ -459,7 +459,7 @@ impl Device {
             name: name.to_string(),
             dir: dir.to_path_buf(),
             kind,
-            account: Some(account),
+            account: Some(std::sync::Arc::new(tokio::sync::Mutex::new(account))),
             account_id,
             password,
             model: Model::default(),
@@ -499,12 +499,17 @@ impl Device {
         let mut account = LocalAccount::new_unauthenticated(self.account_id, target).await?;
         let key: AccessKey = self.password.clone().into();
         account.sign_in(&key).await?;
-        self.account = Some(account);
+        self.account = Some(std::sync::Arc::new(tokio::sync::Mutex::new(account)));
         Ok(())
     }
 
-    pub fn acct(&mut self) -> &mut LocalAccount {
-        self.account.as_mut().expect("device is open")
+    /// Lock the account (the sync bridge shares it through the same mutex).
+    pub async fn lock(&self) -> tokio::sync::OwnedMutexGuard<LocalAccount> {
+        self.account.as_ref().expect("device is open").clone().lock_owned().await
+    }
+
+    pub fn shared(&self) -> std::sync::Arc<tokio::sync::Mutex<LocalAccount>> {
+        self.account.as_ref().expect("device is open").clone()
     }
 
     /// Initialise the model from what the account serves (after creation).
@@ -512,28 +517,26 @@ impl Device {
         let snap = self.snapshot().await.map_err(|e| anyhow::anyhow!(e))?;
         self.model.folders = snap;
         self.model.fslots.clear();
-        let a = self.acct();
-        if let Some(s) = a.default_folder().await {
-            self.model.fslots.insert(0, *s.id());
-        }
-        let a = self.acct();
-        if let Some(s) = a.archive_folder().await {
-            self.model.fslots.insert(1, *s.id());
-        }
-        let a = self.acct();
-        if let Some(s) = a.authenticator_folder().await {
-            self.model.fslots.insert(2, *s.id());
-        }
-        let a = self.acct();
-        if let Some(s) = a.contacts_folder().await {
-            self.model.fslots.insert(3, *s.id());
+        let (d, ar, au, co) = {
+            let a = self.lock().await;
+            (
+                a.default_folder().await.map(|s| *s.id()),
+                a.archive_folder().await.map(|s| *s.id()),
+                a.authenticator_folder().await.map(|s| *s.id()),
+                a.contacts_folder().await.map(|s| *s.id()),
+            )
+        };
+        for (k, v) in [(0u64, d), (1, ar), (2, au), (3, co)] {
+            if let Some(id) = v {
+                self.model.fslots.insert(k, id);
+            }
         }
         Ok(())
     }
 
     /// O-snapshot: everything the account serves, through the public API.
     pub async fn snapshot(&mut self) -> Result<Snap, String> {
-        let a = self.acct();
+        let mut a = self.lock().await;
         let folders = a.list_folders().await.map_err(|e| format!("list_folders: {e}"))?;
         let mut snap = Snap::new();
         for f in folders {
@@ -619,7 +622,7 @@ impl Device {
                 let meta = make_meta(&secret, ju64(s, "label"), ju64(s, "tags"), jbool(s, "fav"), marker_labels, val);
                 let sm = secret_m(&meta, &secret);
                 let opts = AccessOptions { folder: Some(fid), ..Default::default() };
-                match self.acct().create_secret(meta, secret, opts).await {
+                match self.lock().await.create_secret(meta, secret, opts).await {
                     Ok(r) => {
                         if let Some(f) = self.model.folders.get_mut(&fid) {
                             f.secrets.insert(r.id, sm);
@@ -649,8 +652,7 @@ impl Device {
                 let meta = make_meta(&secret, ju64(s, "label"), ju64(s, "tags"), jbool(s, "fav"), marker_labels, val);
                 let meta_only = jbool(s, "meta_only");
                 let opts = AccessOptions { folder: Some(fid), ..Default::default() };
-                let res = self
-                    .acct()
+                let res = self.lock().await
                     .update_secret(&id, meta.clone(), if meta_only { None } else { Some(secret.clone()) }, opts)
                     .await;
                 match res {
@@ -674,7 +676,7 @@ impl Device {
                 if to == fid {
                     return "skip".into();
                 }
-                match self.acct().move_secret(&id, &fid, &to, Default::default()).await {
+                match self.lock().await.move_secret(&id, &fid, &to, Default::default()).await {
                     Ok(r) => {
                         let e = self.model.folders.get_mut(&fid).and_then(|f| f.secrets.remove(&id));
                         if let (Some(e), Some(f)) = (e, self.model.folders.get_mut(&to)) {
@@ -689,7 +691,7 @@ impl Device {
             "delete" => {
                 let Some((fid, id)) = self.model.slots.get(&slot).copied() else { return "skip".into() };
                 let opts = AccessOptions { folder: Some(fid), ..Default::default() };
-                match self.acct().delete_secret(&id, opts).await {
+                match self.lock().await.delete_secret(&id, opts).await {
                     Ok(_) => {
                         if let Some(f) = self.model.folders.get_mut(&fid) {
                             f.secrets.remove(&id);
@@ -709,7 +711,7 @@ impl Device {
                 if fid == arch {
                     return "skip".into();
                 }
-                match self.acct().archive(&fid, &id, Default::default()).await {
+                match self.lock().await.archive(&fid, &id, Default::default()).await {
                     Ok(r) => {
                         let e = self.model.folders.get_mut(&fid).and_then(|f| f.secrets.remove(&id));
                         if let (Some(e), Some(f)) = (e, self.model.folders.get_mut(&arch)) {
@@ -739,7 +741,7 @@ impl Device {
                     "Contact" => SecretType::Contact,
                     _ => SecretType::Note,
                 };
-                match self.acct().unarchive(&id, &st, Default::default()).await {
+                match self.lock().await.unarchive(&id, &st, Default::default()).await {
                     Ok((r, to)) => {
                         let to = *to.id();
                         let e = self.model.folders.get_mut(&fid).and_then(|f| f.secrets.remove(&id));
@@ -802,7 +804,7 @@ impl Device {
                     .iter()
                     .find(|(_, f)| f.secrets.contains_key(&id))
                     .map(|(k, _)| *k);
-                let folder = self.acct().folder(&fid).await;
+                let folder = self.lock().await.folder(&fid).await;
                 let mut folder = match folder {
                     Ok(f) => f,
                     Err(e) => return format!("err:{}", short_err(&e.to_string())),
@@ -840,7 +842,7 @@ impl Device {
                 if jbool(s, "nosync") {
                     o.flags = Some(VaultFlags::NO_SYNC);
                 }
-                match self.acct().create_folder(o).await {
+                match self.lock().await.create_folder(o).await {
                     Ok(r) => {
                         let id = *r.folder.id();
                         self.model.fslots.insert(fslot, id);
@@ -861,7 +863,7 @@ impl Device {
             "frename" => {
                 let Some(fid) = self.folder_of_slot(ju64(s, "fslot")) else { return "skip".into() };
                 let name = fname(ju64(s, "name"), marker_labels, val);
-                match self.acct().rename_folder(&fid, name.clone()).await {
+                match self.lock().await.rename_folder(&fid, name.clone()).await {
                     Ok(_) => {
                         if let Some(f) = self.model.folders.get_mut(&fid) {
                             f.name = name;
@@ -878,7 +880,7 @@ impl Device {
                 let bit = if jbool(s, "local") { VaultFlags::LOCAL.bits() } else { VaultFlags::SHARED.bits() };
                 let newf = cur ^ bit;
                 let flags = VaultFlags::from_bits_truncate(newf);
-                match self.acct().update_folder_flags(&fid, flags).await {
+                match self.lock().await.update_folder_flags(&fid, flags).await {
                     Ok(_) => {
                         if let Some(f) = self.model.folders.get_mut(&fid) {
                             f.flags = newf;
@@ -891,7 +893,7 @@ impl Device {
             "fdesc" => {
                 let Some(fid) = self.folder_of_slot(ju64(s, "fslot")) else { return "skip".into() };
                 let d = if val % 5 == 0 { String::new() } else { marker(val, "folder.description") };
-                match self.acct().set_folder_description(&fid, d.clone()).await {
+                match self.lock().await.set_folder_description(&fid, d.clone()).await {
                     Ok(_) => {
                         if let Some(f) = self.model.folders.get_mut(&fid) {
                             f.description = d;
@@ -904,7 +906,7 @@ impl Device {
             "fdelete" => {
                 let fslot = 4 + ju64(s, "fslot") % 4;
                 let Some(fid) = self.folder_of_slot(fslot) else { return "skip".into() };
-                match self.acct().delete_folder(&fid).await {
+                match self.lock().await.delete_folder(&fid).await {
                     Ok(_) => {
                         self.model.folders.remove(&fid);
                         self.model.fslots.remove(&fslot);
@@ -916,7 +918,7 @@ impl Device {
             }
             "signout_in" => {
                 let key: AccessKey = self.password.clone().into();
-                let a = self.acct();
+                let mut a = self.lock().await;
                 if let Err(e) = a.sign_out().await {
                     return format!("err:sign_out:{}", short_err(&e.to_string()));
                 }
@@ -931,26 +933,26 @@ impl Device {
             },
             "compact" => {
                 let Some(fid) = self.folder_of_slot(ju64(s, "fslot")) else { return "skip".into() };
-                match self.acct().compact_folder(&fid).await {
+                match self.lock().await.compact_folder(&fid).await {
                     Ok(_) => "ok".into(),
                     Err(e) => format!("err:{}", short_err(&e.to_string())),
                 }
             }
-            "compact_account" => match self.acct().compact_account().await {
+            "compact_account" => match self.lock().await.compact_account().await {
                 Ok(_) => "ok".into(),
                 Err(e) => format!("err:{}", short_err(&e.to_string())),
             },
             "chpw_folder" => {
                 let Some(fid) = self.folder_of_slot(ju64(s, "fslot")) else { return "skip".into() };
                 let pw: SecretString = format!("folder-pw-{}", marker(val, "folder.password")).into();
-                match self.acct().change_folder_password(&fid, AccessKey::Password(pw)).await {
+                match self.lock().await.change_folder_password(&fid, AccessKey::Password(pw)).await {
                     Ok(_) => "ok".into(),
                     Err(e) => format!("err:{}", short_err(&e.to_string())),
                 }
             }
             "chpw_account" => {
                 let pw = format!("acct-pw-{}", marker(val, "account.password.new"));
-                match self.acct().change_account_password(pw.clone().into()).await {
+                match self.lock().await.change_account_password(pw.clone().into()).await {
                     Ok(_) => {
                         self.password = pw.into();
                         "ok".into()
@@ -962,7 +964,7 @@ impl Device {
                 let key: AccessKey = self.password.clone().into();
                 let c = cipher_of(ju64(s, "cipher"));
                 let k = kdf_of(ju64(s, "kdf"));
-                match self.acct().change_cipher(&key, &c, Some(k)).await {
+                match self.lock().await.change_cipher(&key, &c, Some(k)).await {
                     Ok(_) => "ok".into(),
                     Err(e) => format!("err:{}", short_err(&e.to_string())),
                 }
@@ -982,4 +984,58 @@ pub fn fname(n: u64, marker_names: bool, val: u64) -> String {
 pub fn short_err(e: &str) -> String {
     let s: String = e.chars().take(70).collect();
     s.replace('\n', " ")
+}
+
+impl Device {
+    /// After a merge the served state is the truth: adopt it and make the
+    /// secrets created elsewhere addressable through free slots.
+    pub async fn refresh_from_served(&mut self, n_slots: u64) -> Result<(), String> {
+        let snap = self.snapshot().await?;
+        self.model.folders = snap;
+        let folders = self.model.folders.clone();
+        self.model
+            .slots
+            .retain(|_, (f, id)| folders.get(f).map(|x| x.secrets.contains_key(id)).unwrap_or(false));
+        // folder slots: drop vanished, adopt new user folders
+        self.model.fslots.retain(|_, f| folders.contains_key(f));
+        let known: std::collections::BTreeSet<VaultId> = self.model.fslots.values().copied().collect();
+        let mut free: Vec<u64> = (4..8).filter(|k| !self.model.fslots.contains_key(k)).collect();
+        for id in folders.keys() {
+            if !known.contains(id) {
+                if let Some(k) = free.first().copied() {
+                    free.remove(0);
+                    self.model.fslots.insert(k, *id);
+                }
+            }
+        }
+        let slotted: std::collections::BTreeSet<SecretId> =
+            self.model.slots.values().map(|(_, id)| *id).collect();
+        let mut free: Vec<u64> = (0..n_slots).filter(|k| !self.model.slots.contains_key(k)).collect();
+        for (fid, f) in &folders {
+            for sid in f.secrets.keys() {
+                if !slotted.contains(sid) {
+                    if let Some(k) = free.first().copied() {
+                        free.remove(0);
+                        self.model.slots.insert(k, (*fid, *sid));
+                    }
+                }
+            }
+        }
+        Ok(())
+    }
+}
+
+pub fn copy_dir_all(src: &Path, dst: &Path) -> std::io::Result<()> {
+    std::fs::create_dir_all(dst)?;
+    for e in std::fs::read_dir(src)? {
+        let e = e?;
+        let p = e.path();
+        let t = dst.join(e.file_name());
+        if e.file_type()?.is_dir() {
+            copy_dir_all(&p, &t)?;
+        } else {
+            std::fs::copy(&p, &t)?;
+        }
+    }
+    Ok(())
 }
